@@ -149,7 +149,7 @@ def c18Step (_ : Unit) (line : String) : Unit × String :=
             | none => .ok (0.0 / 0.0) ("\x00oracle-miss".toList)
           let st0 : Store Float := fun q => (pre.find? (·.1 == q)).map (·.2)
           let (st, used, err) :=
-            setParams Gen.C18.env Gen.C18.durCfg oracle 16 kind pfx.toList (opts.map String.toList) st0
+            setParams Gen.C18.env Gen.C18.durCfg oracle kind pfx.toList (opts.map String.toList) st0
           let status := match err with | none => "ok" | some e => "exc:" ++ errName e
           let usedS := if used.isEmpty then "-" else String.intercalate "," (used.map toString)
           let vals := pre.map fun (p, _) => fmtLeaf (st p)
